@@ -436,7 +436,9 @@ def compile_ast(
             )
 
             if nd.how == "left":
-                joined = df.join(joined, on="__INDEX__", how="left").drop("__INDEX__")
+                # `joined` repeats every left column; keep only the right ones for the re-join
+                left_cols = [name for name in df.collect_schema().names() if name != "__INDEX__"]
+                joined = df.join(joined.drop(left_cols), on="__INDEX__", how="left").drop("__INDEX__")
 
             df = joined
 
